@@ -45,6 +45,13 @@ type Case struct {
 	AssertKnown bool `json:"assert_known,omitempty"`
 	// MissingDir: the directory to lock does not exist (every acquisition may then fail, but no two may succeed)
 	MissingDir bool `json:"directory_to_lock_missing,omitempty"`
+	// HBDelaysMs: the background heart-beat writers are part of the interleaving too. The n-th time stamp (chtimes) set by
+	// any heart-beat writer is held up for HBDelaysMs[n mod len] milliseconds (at most 15: a heart-beat keeps running every
+	// period), so that the last operations of a previous holder's writer can land after the next acquisition.
+	HBDelaysMs []int `json:"heartbeat_stamp_delays_ms,omitempty"`
+	// LateWriterMs: operations still issued by the heart-beat writer of a contender that has begun to release (the writer
+	// stops asynchronously) are held up that long: they land on whatever stands at the lock's path by then
+	LateWriterMs int `json:"late_writer_ms,omitempty"`
 }
 
 const lockID = "L"
@@ -64,6 +71,7 @@ type actor struct {
 	removes         int    // successful removals of the lock directory within the call
 	firstRm         int64
 	heldAtCallStart bool
+	sawOldStamp     bool // within the current call: a stat was served with a stamp two periods old
 	settingUp       atomic.Bool // created the lock directory, heart-beat not started yet
 	acquiredAt      time.Time
 	createdAt       time.Time // when this contender's mkdir created the lock directory
@@ -115,6 +123,10 @@ func (w *world) settingUpClient() string {
 	return ""
 }
 
+func (w *world) isHeartbeatPath(p string) bool {
+	return strings.HasSuffix(p, ".lock") && strings.HasPrefix(p, w.lockDir+string(filepath.Separator))
+}
+
 func (w *world) isHeartbeat(op *fsx.Op) bool {
 	if !strings.HasSuffix(op.Path, ".lock") || !strings.HasPrefix(op.Path, w.lockDir+string(filepath.Separator)) {
 		return false
@@ -161,6 +173,19 @@ func (w *world) after(op *fsx.Op) {
 		w.mu.Lock()
 		w.logf("[%dms] %s stats the heart-beat file (%s)", time.Since(w.t0).Milliseconds(), op.Client, op.Err)
 		w.mu.Unlock()
+	}
+	// evidence of staleness seen by a contender within its current call: a sign of life (heart-beat file, or the lock
+	// directory itself) whose stamp is about two periods old or more
+	if op.Kind == "stat" && op.Err == "" && op.ModTime != 0 && (op.Path == w.lockDir || w.isHeartbeatPath(op.Path)) {
+		if time.Unix(0, op.End).Sub(time.Unix(0, op.ModTime)) > 90*time.Millisecond {
+			w.mu.Lock()
+			for _, a := range w.actors {
+				if a.name == op.Client {
+					a.sawOldStamp = true
+				}
+			}
+			w.mu.Unlock()
+		}
 	}
 	if op.Err != "" {
 		return
@@ -216,7 +241,8 @@ func (w *world) after(op *fsx.Op) {
 				case !w.c.AssertKnown && w.ownerSeq > a.callSeq && a.heldAtCallStart:
 					w.known = "C01-KF-a"
 					w.logf("KNOWN C01-KF-a: %s", msg)
-				case !w.c.AssertKnown && w.ownerSeq > a.callSeq:
+				case !w.c.AssertKnown && w.ownerSeq > a.callSeq && a.sawOldStamp:
+					// (the remover did see a stale generation: a take-over decided without any stamp two periods old is no KF-b)
 					w.known = "C01-KF-b"
 					w.logf("KNOWN C01-KF-b: %s", msg)
 				default:
@@ -233,6 +259,7 @@ func (w *world) after(op *fsx.Op) {
 func (w *world) begin(a *actor, call string) {
 	w.mu.Lock()
 	a.inCall, a.callSeq, a.removes, a.firstRm, a.heldAtCallStart = call, w.box.Backend.OpCount(), 0, 0, a.holding
+	a.sawOldStamp = false
 	a.callSeq = w.seq.Load()
 	if call == "unlock" {
 		a.holding = false // the holder has begun to release
@@ -277,6 +304,31 @@ func runCase(t ev.T, test string, c Case) (known string) {
 	_ = box.Raw.MkdirAll(box.Path("elsewhere"), 0o755)
 	w := &world{c: &c, box: box, lockDir: filepath.Join(dir, filesystem.LockFilePrefix+"-"+lockID), owner: -1, t0: time.Now()}
 	sched := baton.New(box.Backend, w.unparked)
+	if len(c.HBDelaysMs) > 0 || c.LateWriterMs > 0 {
+		parkOrNot := box.Backend.Before
+		var stamps atomic.Int64
+		box.Backend.Before = func(op *fsx.Op) {
+			if c.LateWriterMs > 0 && (op.Kind == "chtimes" || op.Kind == "openfile") && w.isHeartbeat(op) {
+				late := false
+				w.mu.Lock()
+				for _, a := range w.actors {
+					if a.name == op.Client && !a.holding && (a.inCall == "" || a.inCall == "unlock") {
+						late = true
+					}
+				}
+				w.mu.Unlock()
+				if late {
+					ev.Class("an operation of a released holder's heart-beat writer was held up")
+					time.Sleep(time.Duration(c.LateWriterMs) * time.Millisecond)
+				}
+			} else if len(c.HBDelaysMs) > 0 && op.Kind == "chtimes" && w.isHeartbeat(op) {
+				if d := c.HBDelaysMs[int(stamps.Add(1)-1)%len(c.HBDelaysMs)]; d > 0 {
+					time.Sleep(time.Duration(d) * time.Millisecond)
+				}
+			}
+			parkOrNot(op)
+		}
+	}
 	box.Backend.KeepOps(false)
 	sched.OnAfter = func(op *fsx.Op) {
 		w.seq.Store(op.Seq)
@@ -463,6 +515,9 @@ func runCase(t ev.T, test string, c Case) (known string) {
 	}
 	w.mu.Lock()
 	defer w.mu.Unlock()
+	if os.Getenv("C01_TRACE") != "" {
+		fmt.Println("TRACE " + strings.Join(w.history, "\nTRACE "))
+	}
 	if w.preempted {
 		ev.Class("preempted-inside-a-call")
 	}
@@ -495,6 +550,24 @@ func runCase(t ev.T, test string, c Case) (known string) {
 func genCase(t *rapid.T) Case {
 	c := Case{Backend: rapid.SampledFrom([]string{"mem", "mem", "os"}).Draw(t, "backend")}
 	n := rapid.IntRange(2, 4).Draw(t, "contenders")
+	if rapid.IntRange(0, 3).Draw(t, "hand-over") == 0 {
+		// a hand-over: one contender acquires and releases, a second one waits for the lock and keeps it for a while, a third
+		// one (with override) keeps trying; the tail of the first one's heart-beat writer is held up
+		hold := func(label string, lo, hi int) Step { return Step{Op: "hold", Arg: rapid.IntRange(lo, hi).Draw(t, label)} }
+		a := Contender{Program: []Step{{Op: "trylock"}, hold("a-hold", 1, 4), {Op: "unlock"}}}
+		b := Contender{Override: rapid.Bool().Draw(t, "b-override"), Program: []Step{{Op: "lock", Arg: 75}, hold("b-hold1", 6, 12), hold("b-hold2", 6, 12), hold("b-hold3", 1, 12), {Op: "unlock"}}}
+		cc := Contender{Override: true, Program: []Step{hold("c-wait", 1, 12)}}
+		for k := 0; k < 5; k++ {
+			cc.Program = append(cc.Program, Step{Op: rapid.SampledFrom([]string{"trylock", "trylock", "releaseifstale"}).Draw(t, fmt.Sprintf("c-op%d", k))}, hold(fmt.Sprintf("c-hold%d", k), 1, 6))
+		}
+		c.Contenders = []Contender{a, b, cc}
+		c.LateWriterMs = rapid.SampledFrom([]int{5, 20, 50, 80, 120, 160}).Draw(t, "late-writer-ms")
+		m := rapid.IntRange(8, 60).Draw(t, "schedule-len")
+		for i := 0; i < m; i++ {
+			c.Schedule = append(c.Schedule, rapid.Permutation([]int{0, 1, 2}).Draw(t, fmt.Sprintf("prio%d", i)))
+		}
+		return c
+	}
 	for i := 0; i < n; i++ {
 		cc := Contender{Override: rapid.Bool().Draw(t, fmt.Sprintf("override%d", i))}
 		steps := rapid.IntRange(1, 6).Draw(t, fmt.Sprintf("steps%d", i))
@@ -516,6 +589,11 @@ func genCase(t *rapid.T) Case {
 		base[i] = i
 	}
 	c.MissingDir = rapid.IntRange(0, 9).Draw(t, "missing-dir") == 0
+	if rapid.IntRange(0, 2).Draw(t, "slow-stamps") == 0 {
+		c.HBDelaysMs = rapid.SliceOfN(rapid.SampledFrom([]int{0, 0, 0, 3, 8, 15}), 1, 6).Draw(t, "stamp-delays")
+	} else if rapid.IntRange(0, 1).Draw(t, "late-writer") == 0 {
+		c.LateWriterMs = rapid.SampledFrom([]int{5, 20, 50, 80, 120, 160}).Draw(t, "late-writer-ms")
+	}
 	m := rapid.IntRange(8, 60).Draw(t, "schedule-len")
 	for i := 0; i < m; i++ {
 		c.Schedule = append(c.Schedule, rapid.Permutation(base).Draw(t, fmt.Sprintf("prio%d", i)))
